@@ -9,10 +9,10 @@ def fill(check):
           "nextSet_spec/viable_spec/addEOS_derives: for every grammar and context the oracle returns exactly the tokens whose extension can be completed; the real masks (earley and cky back ends, "
           "several hash seeds) are compared with it on seeded grammars of all shape classes; thorough adds an exhaustive family of tiny grammars. Any difference is a violation with the input as replay.",
           TB + "Modelled, not verified: the Earley/CKY mask computation itself (decided per input against the verified oracle).", "DESIGN.md 7 C01")
-    check("C02", "Lean 4 proof (CKY recurrence = stratified derivation sum WN; memo table = WN; strict Earley agenda priority on translator-generated expressions) + differential correspondence of all parsers against the proved WN oracle",
-          "Theorems over every commutative semiring, grammar and string for the CKY leg and the specification table; the Earley legs are decided by the proved strict agenda-priority order "
-          "(tied to the source expressions by the translator) plus sampled agreement of the real parsers with the proved oracle under several hash seeds, rule permutations, renamings and randomly broken agenda ties.",
-          TB + "Modelled, not verified: completeness of the Earley item system; floating point; CPython dict/set semantics.", "DESIGN.md 7 C02")
+    check("C02", "Lean 4 proof (Earley model incl. its priority-queue agenda, incremental CKY and _parse_chart models all equal the stratified derivation sum WN; memo table = WN; priority order on translator-generated expressions) + differential correspondence: values of all parsers against the proved WN oracle and the real Earley / CKY charts against the models",
+          "earleyQ_correct (any pop among maximal-priority items), incCky_call, cfgParse_eq_WN, cky_correct, WN_perm, WN_rename in every commutative semiring; the models are tied to the code by comparing the real parsers' charts (complete and incomplete Earley items, CKY columns) "
+          "and values with them under several hash seeds, rule permutations, renamings and randomly broken agenda ties.",
+          TB + "Not modelled: the preprocessing inside Earley.__init__ as one pipeline (its stages are C06/C07), interning of rule suffixes, floating point, CPython dict/set semantics.", "DESIGN.md 7 C02")
     check("C03", "Lean 4 proof (prefix transducer relates each string to each prefix exactly once) + correspondence of prefix_weight / prefix_grammar / derivative against sums of the proved WN oracle",
           "prefix_transducer_unique for every alphabet and string pair; the weighted statements are decided by comparing the real prefix weights, prefix grammars and derivative grammars with Σ WN over all "
           "strings of finite-language grammars (exact) and deep truncations for cyclic ones; mirror models of prefix_transducer and derivative compared structurally.",
@@ -35,19 +35,19 @@ def fill(check):
     check("C08", "Lean 4 proof (Kleene iterates ZN: table = specification, monotone chain, forgetful derivation sum, naive evaluator = ZN, Expectation lifting) + correspondence of agenda / naive_bottom_up / treesum / expected_length",
           "ZNtab_spec, ZN_mono_le, ZN_forget, bottom_up_step_is_ZN, expectation_lifting; the real evaluators are compared with ZN (exact when stationary, deep truncation otherwise) under 3–8 hash seeds.",
           TB + "The agenda algorithm itself (semi-naive updates, tolerance rule) is modelled only through its result; convergence is sampled.", "DESIGN.md 7 C08")
-    check("C09", "Correspondence of grammar∘transducer against the path-sum/derivation-sum specifications (Σ_x WN·TPN), structural model of the item construction",
+    check("C09", "Lean 4 proof of the weighted Bar-Hillel construction as the code performs it (compose_eps: ε on either tape, any grammar; exact identity without nullary rules / input ε; pruning to supported items irrelevant; acceptor and string products) + rule-for-rule structural correspondence of the real composed grammar with the model + value comparison against Σ_x WN·TPN",
           "The real composed grammars are evaluated by the proved WN oracle and compared with Σ_x WN(G,x)·TPN(T,x,y) from the Lean specifications for transducers with ε on either tape, ε:ε arcs, cycles, dead states, both argument orders, acceptors and strings.",
-          TB + "No theorem about the Bar-Hillel construction yet: the check is a proved-oracle comparison (weighted Bar-Hillel proof is future work).", "DESIGN.md 7 C09")
-    check("C10", "Correspondence of transducer composition and evaluation against the transducer path-sum specification TPN; structural models of T, project, diag, from_string, from_pairs",
+          TB + "General ε case proved as two-sided level-wise bounds (same limit), not as a graded identity; truncate_length decided per input.", "DESIGN.md 7 C09")
+    check("C10", "Lean 4 proof (compose_graded_TPk: every pair of matching paths contributes exactly once through the ε-filter, both association branches; T, project, diag, from_string, from_pairs specs) + structural correspondence of the real composed machine with the model + value comparison against TPN",
           "f@g, f(x,y), cross-sections, transposition, projection and the constructors are compared with Σ_y TPN(f,x,y)·TPN(g,y,z) computed by the Lean specification on ε-acyclic machines (exact) and deep truncations otherwise.",
-          TB + "No theorem about the ε-filter composition yet (future work); decided per input against the specification.", "DESIGN.md 7 C10")
+          TB + "The model keeps all state pairs; the real machine is compared with its reachable part. FST.__call__ is related to TPN by theorem only for ε-free machines (evalN_epsfree), otherwise per input.", "DESIGN.md 7 C10")
     check("C11", "Lean 4 proof (forward algorithm = sum over accepting paths on ε-free machines; DP table = path-sum specification with ε arcs and cycles) + correspondence of __call__, epsremove, total_weight",
           "forward_correct, PNtab_spec, Qk_epsfree_length; m(x), m.epsremove (no ε arcs, same weights as decided by the oracle on the real output) and total_weight are compared with the path-sum oracle over Float/Real/Boolean/MaxTimes.",
           TB + "ε-cyclic machines: deep IEEE truncation with geometric tail.", "DESIGN.md 7 C11")
     check("C12", "Lean 4 proof (union, concatenation, Kleene plus, reverse, injective renaming, lift, from_string, zero as exact-length path identities in every semiring) + language-level oracle on nested expressions + structural correspondence",
           "union_Pk, concat_Pk, kleenePlus_Pk, reverse_Pk, mapStates_Pk, lift_spec, fromString_spec, zero_spec; real nested expressions are evaluated and compared with the language-level recursion on operand weights from the proved oracle.",
           TB, "DESIGN.md 7 C12")
-    check("C13", "Correspondence of determinize / min_det / push / trim / trim_vals against the path-sum oracle and verified structural predicates (proofs of push/trim models pending)",
+    check("C13", "Lean 4 proof (weighted subset construction: deterministic and weight-preserving whenever it terminates, never divides by zero for positive weights; min_det pipeline; push preserves / is stochastic; trim keeps exactly the useful states) + correspondence of the real results against the path-sum oracle, predicates on the outputs, structural models of push/trim/trim_vals",
           "String weights of the real results are compared with the proved path-sum oracle on all short strings; determinism, ε-freeness, stochasticity of pushed machines and usefulness of kept states are decided on the real outputs.",
           TB, "DESIGN.md 7 C13")
     check("C14", "Lean 4 proof of certificate checkers (equivalence certificates, separating words, Hankel-minor lower bounds) over exact arithmetic + comparison of the float implementation with the certified verdicts",
@@ -59,13 +59,13 @@ def fill(check):
     check("C16", "Lean 4 proof of all closed-semiring laws about definitions regenerated from semiring.py on every run (translator) + execution of the generated operations and of every law on the real classes",
           "151 theorems (all eight weight types incl. Entropy's identity shortcuts and Log on EReal) about Generated/Semiring.lean; a source change that breaks a law breaks the proof, and the law is then evaluated on the real classes over value grids to exhibit the failing triple.",
           TB + "The translator (harness/translate.py) is trusted and validated per run by executing the generated operations against the classes. 'Floats within rounding error' is sampled (Log: 1e-9).", "DESIGN.md 7 C16")
-    check("C17", "Correspondence of to_cfg (both recursions), WFSA.to_bytes and CFG.to_bytes against WN / path-sum oracles with UTF-8 decoding; checked freshness hypotheses",
+    check("C17", "Lean 4 proof (toCfgRight/Left_spec, toBytes_Pk, cfgToBytes_WN: weight of a byte string = total weight of its decodings) + structural models + correspondence against WN / path-sum oracles with UTF-8 decoding on real outputs, merged conversions included",
           "Real converted grammars and byte automata are evaluated by the proved oracles on all byte strings up to a bound and compared with the symbol-level weights through Lean's UTF-8 encoder; merged conversions included.",
           TB, "DESIGN.md 7 C17")
-    check("C18", "Correspondence of interegular_to_wfsa against Mathlib's verified regular-expression matcher (rmatch_iff_matches') on generated regex ASTs; local normalisation decided on the real automaton",
+    check("C18", "Lean 4 proof (FSM→WFSA step: normalised, support = FSM acceptance, sub-probability; reference matcher = Mathlib rmatch) + structural model of the FSM→WFSA step on the FSM interegular actually produced + acceptance of all short strings against the verified matcher",
           "Regex ASTs are printed both in the library's syntax and as RegularExpression terms; acceptance of all strings up to a bound is compared; per-state outgoing mass is summed exactly.",
           TB + "interegular (third party) is validated per run through the end-to-end oracle.", "DESIGN.md 7 C18")
-    check("C19", "Correspondence of LarkStuff.char_cfg / byte_cfg against substitution semantics computed from the verified viable-prefix/derivation oracle and the verified regex matcher",
+    check("C19", "Lean 4 proof of the substitution theorem (with %ignore) at derivation level + correspondence of char_cfg / byte_cfg against substitution semantics computed with the verified derivation procedure and the verified regex matcher",
           "Generated Lark grammars; acceptance of candidate strings/byte strings compared; name disjointness checked on the real output.",
           TB + "lark (third party) is trusted for loading the grammar and cross-checked only end-to-end.", "DESIGN.md 7 C19")
     check("C20", "Lean 4 proof (local normalisation: head sums one, proportionality; EOS wrapping) + correspondence on real outputs through the WN/ZN oracles + structural models",
